@@ -31,6 +31,8 @@ type Job struct {
 	Samples  int    `json:"samples"`    // how many samples to keep
 	Dump     string `json:"dump"`       // where the watchdog writes stacks
 	Logs     bool   `json:"logs"`       // include role logs in replay output
+	TraceDir string `json:"trace_dir"`  // debugging: write every run's trace there
+	Hashes   bool   `json:"hashes"`     // report the canonical log hash of every run (determinism self-test)
 }
 
 type ReplayFile struct {
@@ -80,6 +82,7 @@ type Out struct {
 	HarnessErr string         `json:"harness_err,omitempty"`
 	WallS      float64        `json:"wall_s"`
 	WallCapHit bool           `json:"wall_cap_hit"`
+	Hashes     map[string]string `json:"hashes,omitempty"`
 	// replay mode
 	Reproduced bool     `json:"reproduced"`
 	LogHash    string   `json:"log_hash,omitempty"`
@@ -207,6 +210,24 @@ func workerBatch(t *testing.T, job *Job) {
 			break
 		}
 		out.Runs++
+		if job.TraceDir != "" {
+			var sb []byte
+			for _, l := range res.Trace {
+				sb = append(sb, l...)
+				sb = append(sb, '\n')
+			}
+			os.WriteFile(filepath.Join(job.TraceDir, fmt.Sprintf("%d.txt", i)), sb, 0o644)
+		}
+		if job.Hashes {
+			if out.Hashes == nil {
+				out.Hashes = map[string]string{}
+			}
+			h := res.LogHash
+			if res.Viol != nil {
+				h += "!" + res.Viol.Oracle
+			}
+			out.Hashes[fmt.Sprint(i)] = h
+		}
 		out.Steps += int64(res.Stats.Steps)
 		out.SimNanos += res.Stats.SimNanos
 		for k, v := range res.Stats.Faults {
